@@ -358,6 +358,12 @@ def run_pair(case):
               "logger" if case.get("logger", True) else "no-logger"]
     if sampled:
         labels.append("buffer-sampled")
+    if case.get("env", {}).get("act64"):
+        labels.append("float64-action-space")
+    if case.get("env", {}).get("obs64"):
+        labels.append("float64-observations")
+    if name == "pets" and "init_with_previous_plan" in case["cfg"]:
+        labels.append("warm-up-ends-mid-episode:prev-plan=%s" % case["cfg"]["init_with_previous_plan"])
     nt = learned and differs and (sampled is None or sampled > 0 or _family(name) != "offpolicy")
     return Outcome(labels=labels, nontrivial=nt,
                    fp=[name, case["env"], {k: v for k, v in case["cfg"].items() if k != "probe"}])
@@ -435,6 +441,15 @@ def build(name, seed):
     fam = _family(name)
     if fam == "offpolicy":
         case = c01.build_offpolicy(name, seed)
+        if name == "pets" and int(seed) % 4 != 0:
+            # C01's scripts end the first episode inside the warm-up phase (reset handling); here three quarters of the
+            # PETS runs leave the warm-up in the middle of the first episode, so that whatever the planner
+            # carried over from before the first planned step (previous plan) is used
+            case["env"]["script"][0][0] = int(case["cfg"]["learning_starts"]) + 2 + int(seed) % 3
+            case["cfg"]["init_with_previous_plan"] = int(seed) % 3 != 0
+        if "act_low" in case["env"] and int(seed) % 2 == 0:
+            # a legal but rare action space: a float64 Box (seeded like every other one)
+            case["env"]["act64"] = True
     elif fam == "episodic":
         case = c01.build_episodic(name, seed)
     elif fam == "vector":
@@ -638,7 +653,7 @@ def _xsub(name, cost):
 # one sub-check per routine, so that every routine is exercised in every run
 _COST = {"mrq": 12.0, "pets": 12.0, "td7": 8.0, "sac": 6.0, "td3": 5.0, "td3_lap": 5.0, "ddpg": 5.0}
 SUBCHECKS = (
-    [_sub(n, 2, 20, _COST.get(n, 3.0)) for n in
+    [_sub(n, 3 if n in ("pets", "td7") else 2, 20, _COST.get(n, 3.0)) for n in
      R.DQN_FAMILY + R.CONTINUOUS_OFF_POLICY + ("reinforce", "actor_critic", "a2c", "ppo") + R.TABULAR + ("cmaes",)]
     + [_xsub(n, 10.0) for n in ("td3", "sac", "ddqn_per", "td7", "mrq", "ppo", "dynaq", "cmaes")]
     + [_ssub("smt", 3, 24), _ssub("uts", 2, 16), _ssub("amt", 4, 24)]
